@@ -701,6 +701,14 @@ class Lower:
             raise Untranslatable("tuple field of " + str(t))
         if k == "mutref":
             return self.ex(e[1], env, want)
+        if k == "index" and e[2][0] == "tuple" and len(e[2][1]) == 2 and all(q[0] == "num" for q in e[2][1]):
+            # entry (i, j) of a 3 x 3 matrix held as three rows
+            s, t = self.ex(e[1], env)
+            if t == ("st", "Mat3 α"):
+                i, j = int(e[2][1][0][1]), int(e[2][1][1][1])
+                if i < 3 and j < 3:
+                    return f"{s}.r{i}.{'xyz'[j]}", "S"
+            raise Untranslatable(f"matrix entry of {t}")
         if k == "index":
             s, t = self.ex(e[1], env)
             i, ti = self.ex(e[2], env, "N")
@@ -826,6 +834,9 @@ class Lower:
             if m == "atan2" and len(args) == 1:
                 a, ta = self.ex(args[0], env, "S")
                 return f"(Scalar.atan2 {s} {a})", "S"
+            if m == "hypot" and len(args) == 1:
+                a, ta = self.ex(args[0], env, "S")
+                return f"(Scalar.sqrt (({s} * {s}) + ({a} * {a})))", "S"
             if m == "powi" and len(args) == 1 and args[0] == ("num", "2"):
                 return f"({s} * {s})", "S"
             if m == "powi" and len(args) == 1:
@@ -1328,9 +1339,13 @@ def lean_ident(v):
 
 def file_consts(src):
     out = {}
+    # comments removed first (a commented-out `const` is not a constant); of several constants with one
+    # name (a test module may re-declare one) the first, i.e. the file-level one, is meant
+    src = re.sub(r"//[^\n]*", "", src)
+    src = re.sub(r"/\*.*?\*/", "", src, flags=re.S)
     for m in re.finditer(r"\bconst\s+([A-Z_][A-Z0-9_]*)\s*:\s*f64\s*=\s*([-0-9._eE]+(?:f64)?)\s*;", src):
         try:
-            out[m.group(1)] = num_lit(m.group(2))
+            out.setdefault(m.group(1), num_lit(m.group(2)))
         except Exception:
             pass
     return out
